@@ -49,14 +49,25 @@ func (c05) Gen(seed uint64, run int, tier string) *Plan {
 			p.Actions = append(p.Actions, Action{Kind: "task", B: d, D: r.Intn(500), A: r.Intn(4)})
 		case x < 40:
 			p.Actions = append(p.Actions, Action{Kind: "checkin", B: d})
-		case x < 44 && p.Knobs["pivot"] == 1:
+		case x < 43:
+			// relay traffic: a SOCKS client connects through a proxy of the agent; the teamserver
+			// queues its CONNECT for the agent itself (a task no operator issued, without request id)
+			p.Actions = append(p.Actions, Action{Kind: "relay", B: d, D: r.Intn(1 << 30)})
+		case x < 46 && p.Knobs["pivot"] == 1:
 			// an operator tasks the pivot child while its parent reports that the pipe to it is gone
 			// (the operator's goroutine gets no CPU for a while somewhere in between); the child
 			// comes back afterwards and the usual questions are asked about the id that was issued
 			p.Actions = append(p.Actions, Action{Kind: "unlink-race", D: r.Intn(1 << 30)})
-		case x < 50 && p.Policy.Name != "atomic":
+		case x < 52 && p.Policy.Name != "atomic":
 			// an operator issues a task to the agent at the moment the final callback of another of
 			// its tasks is processed (issue and retire both rewrite the agent's list of outstanding ids)
+			if r.Intn(2) == 0 {
+				// the final callbacks of two different tasks of one agent arrive in two requests at the
+				// same time (both retire an entry of the same list)
+				p.Actions = append(p.Actions, Action{Kind: "task", B: d, D: r.Intn(500), A: 1 + r.Intn(3)}, Action{Kind: "task", B: d, D: r.Intn(500), A: 1 + r.Intn(3)},
+					Action{Kind: "task", B: d, D: r.Intn(500), A: 1 + r.Intn(3)}, Action{Kind: "checkin", B: d}, Action{Kind: "race2", B: d, D: r.Intn(1 << 30)})
+				continue
+			}
 			p.Actions = append(p.Actions, Action{Kind: "race", B: d, D: r.Intn(1 << 30)})
 		default:
 			p.Actions = append(p.Actions, Action{Kind: "callback", B: d, C: r.Intn(len(world.Callbacks)), A: r.Intn(ridClasses), D: r.Intn(1 << 30)})
@@ -72,6 +83,8 @@ type c05Agent struct {
 	completed  map[uint32]bool // a final callback was processed
 	bofcb      map[uint32]bool // object-file tasks whose result goes to a script (HasCallback)
 	dead       bool
+	relayed    bool // relay tasks (request id 0) were queued for it
+	proxy      bool
 	parent     *c05Agent // SMB parent (nil: speaks HTTP itself)
 	seen       int       // tasks of d.Tasks already accounted for
 }
@@ -219,6 +232,106 @@ func (c05) Exec(p *Plan, dir string) *Result {
 			wit.Pump()
 			res.Probe("issue-racing-retire")
 			res.FP("race")
+		case "relay":
+			if ag.parent != nil {
+				continue
+			}
+			port := fmt.Sprintf("%d", 1080+a.B%len(ags))
+			if !ag.proxy {
+				taskN++
+				wit.Task(ag.d.NameID(), fmt.Sprintf("%08x", 0x0d000000+taskN), world.CmdSocket, "socks add "+port, map[string]any{"Command": "socks add", "Params": port})
+				w.Sim.Settle()
+				ag.proxy = true
+			}
+			conn := w.Sim.DialIn(port, fmt.Sprintf("198.51.100.9:%d", 6000+a.D%1000))
+			if conn == nil {
+				continue
+			}
+			conn.Push(world.BuildSocksGreeting(5, []byte{0}))
+			w.Sim.Settle()
+			conn.Push(world.BuildSocksRequest(5, 1, 0, 1, []byte{10, 0, 0, byte(1 + a.D%200)}, 445))
+			w.Sim.Settle()
+			// the agent fetches the CONNECT and reports that it could not connect (the client's relay
+			// goroutine busy-waits for that answer): the teamserver tells the client and hangs up
+			n0 := len(ag.d.Tasks)
+			checkin(ag)
+			for _, t := range ag.d.Tasks[n0:] {
+				if t.Cmd != world.CmdSocket {
+					continue
+				}
+				if st := world.ParseSockTask(t.Body); st.Sub == world.SockConnect {
+					ag.d.Out = append(ag.d.Out, world.SockConnectReply(0, st.ID, false, 10061))
+				}
+			}
+			checkin(ag)
+			conn.Reset()
+			w.Sim.Settle()
+			wit.Pump()
+			ag.relayed = true
+			res.Probe("relay-tasks-queued")
+			res.FP("relay")
+		case "race2":
+			o := outstanding(ag, true, false)
+			if len(o) < 2 || ag.parent != nil || len(ag.d.Children) > 0 {
+				continue
+			}
+			i1 := a.D % len(o)
+			i2 := (i1 + 1 + (a.D/7)%(len(o)-1)) % len(o)
+			r1, r2 := o[i1], o[i2]
+			final := func(rid uint32, delay int) []byte {
+				var pb world.PB
+				pb.Int32(uint32(delay)).Int32(1)
+				return ag.d.Frame([]world.Pkg{{Cmd: world.CmdSleep, RID: rid, Body: pb.B}})
+			}
+			send := func(body []byte) *simrt.HTTPCall {
+				return w.Send(world.AgentReq{Port: ag.d.Port, URI: ag.d.URI, Headers: ag.d.Hdrs, Peer: ag.d.Peer, Body: body})
+			}
+			c1 := send(final(r1, 601))
+			w.Sim.RunSteps(uint64(w.Sim.SchedRand().Intn(120)))
+			c2 := send(final(r2, 602))
+			w.Sim.Settle()
+			w.Absorb(ag.d, c1)
+			w.Absorb(ag.d, c2)
+			ag.completed[r1], ag.completed[r2] = true, true
+			wit.Pump()
+			res.Probe("two-finals-at-once")
+			res.FP("race2", len(o))
+			// both ids are retired now, and nothing else is: a replay of either changes nothing, the
+			// answer to a third outstanding task is acted upon
+			try := func(rid uint32, delay int) []string {
+				before := TakeSnap(w, SnapOpts{Witness: wit})
+				w.Absorb(ag.d, w.Do(world.AgentReq{Port: ag.d.Port, URI: ag.d.URI, Headers: ag.d.Hdrs, Peer: ag.d.Peer, Body: final(rid, delay)}))
+				wit.Pump()
+				var eff []string
+				for _, k := range before.Diff(TakeSnap(w, SnapOpts{Witness: wit})) {
+					if !strings.HasSuffix(k, ".queue") {
+						eff = append(eff, k)
+					}
+				}
+				return eff
+			}
+			for k, rid := range []uint32{r1, r2} {
+				if eff := try(rid, 700+k); len(eff) > 0 {
+					res.Violate("C05", "effect-without-outstanding-task", "completed-id-after-concurrent-finals:"+effectClass(eff),
+						fmt.Sprintf("agent %s: the final callbacks of requests %x and %x arrived at the same time; afterwards a replay of %x changed: %s", ag.d.NameID(), r1, r2, rid, strings.Join(eff, " ")), w.Sim)
+				}
+			}
+			if len(o) > 2 && len(res.Violations) == 0 {
+				var r3 uint32
+				for _, x := range o {
+					if x != r1 && x != r2 {
+						r3 = x
+					}
+				}
+				if eff := try(r3, 703); len(eff) == 0 {
+					res.Violate("C05", "outstanding-task-forgotten", "after-concurrent-finals",
+						fmt.Sprintf("agent %s: the final callbacks of requests %x and %x arrived at the same time; afterwards the answer to request %x, still outstanding, was dropped", ag.d.NameID(), r1, r2, r3), w.Sim)
+				}
+				ag.completed[r3] = true
+			}
+			for ; ag.seen < len(ag.d.Tasks); ag.seen++ {
+				ag.handed[ag.d.Tasks[ag.seen].RID] = true
+			}
 		case "checkin":
 			n := checkin(ag)
 			res.FP("checkin", n > 0, ag.parent != nil)
@@ -257,6 +370,11 @@ func (c05) Exec(p *Plan, dir string) *Result {
 			if !have {
 				class = ridNeverIssued
 				rid = 0x5eed0000 + uint32(cr.Intn(0xffff))
+				if ag.relayed && cr.Intn(2) == 0 {
+					// the id the teamserver's own relay tasks carry: no operator task has it
+					rid = 0
+					res.Probe("request-id-of-relay-tasks")
+				}
 			}
 			if class == ridOutstanding && ag.bofcb[rid] && cr.Intn(2) == 0 {
 				// the task's own final callback
